@@ -11,6 +11,7 @@ from harness.worker import Stream
 
 OBLIGATIONS = [
     "PgmVerif.C09_colmajor_roundtrip", "PgmVerif.C09_colmajor_entry", "PgmVerif.C09_uai_index_bijection", "PgmVerif.C09_round4_bound",
+    "PgmVerif.C09_net_decimals_tie",
 ]
 PARTIAL = ["everything lexical (pyparsing grammars, regular-expression block splitting, str(float), numpy array printing, XML) is outside the "
            "Lean model: it is exercised only by the write -> read correspondence"]
